@@ -102,3 +102,52 @@ func verifH_C09_methods() {
 	}
 	verifReach("end")
 }
+
+//verif:harness id=C09 tier=quick,thorough witness=end,routed,refused bounds="routes added by hand (Router.AddRoute) to a router built from a document with path /a (GET): an added route /extra or /extra/{id} with method GET or POST (given in upper or lower case); requests GET / POST on /extra, /extra/7, /a, /zz: an added route is returned for exactly the requests that fill its template with its method, with its operation and parameters; the document's own path is still routed"
+func verifH_C09_legacy_added_routes() {
+	d := "d"
+	mkOp := func() *openapi3.Operation {
+		resps := openapi3.NewResponsesWithCapacity(1)
+		resps.Set("200", &openapi3.ResponseRef{Value: &openapi3.Response{Description: &d}})
+		return &openapi3.Operation{Responses: resps}
+	}
+	doc := &openapi3.T{OpenAPI: "3.0.0", Info: &openapi3.Info{Title: "t", Version: "1"}, Paths: openapi3.NewPaths()}
+	doc.Paths.Set("/a", &openapi3.PathItem{Get: mkOp()})
+	r, err := NewRouter(doc)
+	verifAssert(err == nil && r != nil, "C09 added routes: a router is built")
+	if err != nil || r == nil {
+		return
+	}
+	router := r.(*Router)
+	tmpl := []string{"/extra", "/extra/{id}"}[verifChoose("template", 2)]
+	mi := verifChoose("routeMethod", 2)
+	method := []string{"GET", "POST"}[mi]
+	given := method
+	if verifChoose("lowerCase", 2) == 1 {
+		given = []string{"get", "post"}[mi]
+	}
+	extraOp := mkOp()
+	added := &routers.Route{Spec: doc, Path: tmpl, Method: given, Operation: extraOp, PathItem: &openapi3.PathItem{}}
+	verifAssert(router.AddRoute(added) == nil, "C09 added routes: a route with a method and a path is accepted")
+	reqMethod := []string{"GET", "POST"}[verifChoose("reqMethod", 2)]
+	reqPath := []string{"/extra", "/extra/7", "/a", "/zz"}[verifChoose("reqPath", 4)]
+	route, params, ferr := router.FindRoute(&http.Request{Method: reqMethod, URL: &url.URL{Path: reqPath}, Header: http.Header{}})
+	switch {
+	case reqPath == "/a" && reqMethod == "GET":
+		verifAssert(ferr == nil && route != nil && route.Path == "/a", "C09 added routes: the document's own path is still routed")
+		verifReach("routed")
+	case reqMethod == method && (tmpl == "/extra" && reqPath == "/extra" || tmpl == "/extra/{id}" && reqPath == "/extra/7"):
+		verifAssert(ferr == nil && route != nil && route.Operation == extraOp && route.Path == tmpl, "C09 added routes: a request that fills an added route's template with its method is routed to it")
+		if tmpl == "/extra/{id}" {
+			verifAssert(params["id"] == "7", "C09 added routes: the path parameter of an added route is returned")
+		}
+		verifReach("routed")
+	default:
+		// known finding (shared with the document's own templates): a missing last segment is bound as an empty value
+		verifKnown("C09-legacy-empty-binding", tmpl == "/extra/{id}" && reqPath == "/extra" && reqMethod == method)
+		verifAssert(ferr != nil, "C09 added routes: other requests are not routed")
+		verifKnown("C09-legacy-empty-binding", false)
+		verifReach("refused")
+	}
+	verifReach("end")
+}
